@@ -7,8 +7,19 @@ HERE = os.path.dirname(os.path.abspath(__file__))
 TEXT = json.load(open(os.path.join(HERE, "manifest_text.json")))
 props = [json.loads(l)["id"] for l in open(os.path.join(HERE, "properties.jsonl"))]
 checks, na = [], []
+import importlib
+sys.path.insert(0, "/repo")
+def engine_names(p):
+    try:
+        m = importlib.import_module("mc.props." + p.lower())
+        return [f"{e.name} ({e.kind})" for e in m.engines("quick", 0)]
+    except Exception as ex:
+        return []
 for p in props:
-    t = TEXT.get(p, {})
+    t = dict(TEXT.get(p, {}))
+    names = engine_names(p)
+    if names and t.get("text"):
+        t["text"] = t["text"].rstrip() + " Engines: " + ", ".join(names) + "; alphabets, bounds and oracles of each are in the rule texts of the evidence file and in DESIGN.md 10.7."
     if os.path.exists(os.path.join(HERE, "mc", "props", p.lower() + ".py")) and not t.get("not_applicable"):
         checks.append({
             "property_id": p,
@@ -17,7 +28,7 @@ for p in props:
             "evidence_file": f"/verif/evidence/{p}.json",
             "replay_cmd_template": f"./check {p} --replay {{path}}",
             "engine": "mc",
-            "level_claimed": {"category": LEVELS[p], "text": t.get("text", ""), "design_ref": f"DESIGN.md section 5 {p}"},
+            "level_claimed": {"category": LEVELS[p], "text": t.get("text", ""), "design_ref": f"DESIGN.md section 5 {p}, 10.2, 10.7"},
             "level_note": t.get("note", "trusted: CPython hashlib/hmac, the independent reference models in mc/ref (self-tested against published vectors), the explorer; pure-Python back end only"),
             "technique": t.get("technique", "bounded exhaustive enumeration of inputs/histories on the real code against a reference model"),
         })
